@@ -9,6 +9,7 @@ import (
 	"encoding/json"
 	"fmt"
 	"io"
+	"strconv"
 	"strings"
 	"sync/atomic"
 
@@ -57,6 +58,7 @@ const (
 	TEAddLower   // Header.Add("transfer-encoding", "chunked")
 	TESetLowerNN // the same with header-name normalising disabled on the response
 	TEAddLowerNN
+	TECLCorrect // Header.Set("Content-Length", <the length of the body>) after the body API
 	nTE
 )
 
@@ -77,6 +79,8 @@ type Prog struct {
 	IHF     bool   `json:"ihf,omitempty"`
 	Close   bool   `json:"close,omitempty"` // handler calls SetConnectionClose
 	TE      int    `json:"te,omitempty"`    // the handler sets a Transfer-Encoding field itself (TE* constants)
+	// StatusLast: the status code is set after the body API instead of before it
+	StatusLast bool `json:"status_last,omitempty"`
 }
 
 type Req struct {
@@ -138,12 +142,16 @@ func (p Prog) want(salt byte) []byte {
 		return []byte(consts.StatusMessage(404))
 	case BHijack:
 		var b []byte
+		nr := 0
 		for _, o := range p.Ops {
 			switch o {
 			case '1':
 				b = append(b, payload(1, salt)...)
 			case 'k':
 				b = append(b, payload(4096, salt)...)
+			case 'r':
+				nr++
+				b = append(b, payload(4096, salt+byte(31*nr))...)
 			}
 		}
 		return b
@@ -158,7 +166,9 @@ func (p Prog) run(ctx *app.RequestContext, salt byte) {
 	case BNotFound:
 		ctx.NotFound()
 	}
-	ctx.SetStatusCode(p.Status)
+	if !p.StatusLast {
+		ctx.SetStatusCode(p.Status)
+	}
 	ctx.Response.Header.Set("X-H", "v")
 	if p.Close {
 		ctx.SetConnectionClose()
@@ -185,6 +195,11 @@ func (p Prog) run(ctx *app.RequestContext, salt byte) {
 		case TEAddLowerNN:
 			ctx.Response.Header.DisableNormalizing()
 			ctx.Response.Header.Add("transfer-encoding", "chunked")
+		case TECLCorrect:
+			ctx.Response.Header.Set("Content-Length", strconv.Itoa(len(data)))
+		}
+		if p.StatusLast {
+			ctx.SetStatusCode(p.Status)
 		}
 	}()
 	switch p.Body {
@@ -206,6 +221,8 @@ func (p Prog) run(ctx *app.RequestContext, salt byte) {
 		ctx.SetBodyStream(&io.LimitedReader{R: &chunkReader{b: data, mode: p.Reader}, N: int64(len(data))}, -1)
 	case BHijack:
 		ctx.Response.HijackWriter(resp.NewChunkedBodyWriter(&ctx.Response, ctx.GetWriter()))
+		var reuse []byte
+		nr := 0
 		for _, o := range p.Ops {
 			switch o {
 			case '0':
@@ -214,6 +231,13 @@ func (p Prog) run(ctx *app.RequestContext, salt byte) {
 				ctx.Write(payload(1, salt)) //nolint:errcheck
 			case 'k':
 				ctx.Write(payload(4096, salt)) //nolint:errcheck
+			case 'r':
+				if reuse == nil {
+					reuse = make([]byte, 4096)
+				}
+				nr++
+				copy(reuse, payload(4096, salt+byte(31*nr)))
+				ctx.Write(reuse) //nolint:errcheck
 			case 'f':
 				ctx.Flush() //nolint:errcheck
 			}
@@ -334,6 +358,17 @@ func (w *worker) exec(c *mc.Ctx, cs Case) {
 				return
 			}
 		}
+		if p.Status/100 == 1 || p.Status == 204 {
+			// framing matching the bytes sent: a response that cannot have a body announces none (RFC 7230 3.3.1, 3.3.2)
+			if v, ok := m.Get("Transfer-Encoding"); ok {
+				fail("bodiless-announces-body", fmt.Sprintf("response %d has status %d and carries Transfer-Encoding: %s", i, p.Status, v))
+				return
+			}
+			if v, ok := m.Get("Content-Length"); ok && v != "0" {
+				fail("bodiless-announces-body", fmt.Sprintf("response %d has status %d and carries Content-Length: %s", i, p.Status, v))
+				return
+			}
+		}
 		if len(m.GetAll("Content-Length")) > 1 {
 			fail("dup-cl", fmt.Sprintf("response %d carries %d Content-Length fields", i, len(m.GetAll("Content-Length"))))
 			return
@@ -370,7 +405,7 @@ var statuses = []int{101, 200, 204, 206, 301, 304, 404, 500}
 var sizes = []int{0, 1, 4095, 4096, 4097, 8191, 8192, 8193}
 
 func hijackOps() []string {
-	al := "01kf"
+	al := "01kfr" // 'r': Write(4096) from ONE buffer the handler refills before every such write (io.Copy does that)
 	var out []string
 	var rec func(s string)
 	rec = func(s string) {
@@ -416,6 +451,11 @@ func programs(thorough bool) []Prog {
 			}
 			if st == 404 {
 				out = append(out, Prog{Status: st, Body: BNotFound, Close: cl})
+			}
+			for _, n := range []int{0, 1, 5, 4097} {
+				for _, b := range []int{BSetBody, BAppendWrite, BStreamLen, BStreamChunked, BStreamLimited} {
+					out = append(out, Prog{Status: st, Body: b, Size: n, Close: cl, StatusLast: true})
+				}
 			}
 			if st == 200 || st == 204 {
 				for te := 1; te < nTE; te++ {
@@ -476,6 +516,9 @@ func reducedProgs() []Prog {
 		{Status: 200, Body: BString, Size: 1},
 		{Status: 200, Body: BStreamLen, Size: 1, TE: TEAddLower},
 		{Status: 200, Body: BSetBody, Size: 3, TE: TESetLowerNN},
+		{Status: 200, Body: BStreamChunked, Size: 5, TE: TECLCorrect},
+		{Status: 204, Body: BStreamLen, Size: 5, StatusLast: true},
+		{Status: 200, Body: BHijack, Ops: "rr"},
 	}
 }
 
